@@ -823,7 +823,8 @@ def r3_lib(ck, L):
                 kinds.append("enter")
             elif cal.get("method") == "poll" and cal.get("trait") == "core::future::future::Future":
                 kinds.append("poll")
-            elif (cal.get("path") == "<drop>" and "Entered" in str(cal.get("drop_ty"))) or cal.get("path") == "tracing::span::Span::do_exit":
+            elif (cal.get("path") == "<drop>" and "Entered" in str(cal.get("drop_ty"))) or cal.get("path") == "tracing::span::Span::do_exit" \
+                    or (cal.get("path") == "core::mem::drop" and "Entered" in " ".join(cal.get("targs", []))):
                 kinds.append("exit")
         if "poll" not in kinds:
             continue
